@@ -46,6 +46,9 @@ func fgnProject(b []byte) map[string]interface{} {
 		return finish()
 	}
 	for _, n := range p.SortedNames() {
+		if strings.HasSuffix(n, "/") { // a directory placeholder of the archive, not a part (OPC part names never end in "/")
+			continue
+		}
 		sum := sha256.Sum256(p.Parts[n])
 		parts = append(parts, map[string]interface{}{"n": n, "h": hex.EncodeToString(sum[:8]), "ct": p.ContentType(n)})
 	}
@@ -184,6 +187,23 @@ func (c *fgnCtx) edit(op Op, i int) string {
 		return errRet(d.SetFootnoteConfig(document.DefaultFootnoteConfig()))
 	case "SetTitle":
 		return errRet(d.SetTitle("title " + tok))
+	case "SetAuthor":
+		return errRet(d.SetAuthor("author " + tok))
+	case "SetSubject":
+		return errRet(d.SetSubject("subject " + tok))
+	case "SetKeywords":
+		return errRet(d.SetKeywords("kw1, " + tok))
+	case "SetDescription":
+		return errRet(d.SetDescription("description " + tok))
+	case "SetCategory":
+		return errRet(d.SetCategory("category " + tok))
+	case "UpdateStatistics":
+		return errRet(d.UpdateStatistics())
+	case "SetDocumentProperties":
+		return errRet(d.SetDocumentProperties(&document.DocumentProperties{Title: "title " + tok, Creator: "creator " + tok, Keywords: tok}))
+	case "GetDocumentProperties":
+		_, err := d.GetDocumentProperties()
+		return errRet(err)
 	case "SetPageMargins":
 		return errRet(d.SetPageMargins(20, 20, 20, 20))
 	case "AddTable":
